@@ -25,6 +25,8 @@
 //!   K   fake+real FS: scale — one wildcard matching 1, 2, 5, 31, 32, 33, 64, 200 files under 5 naming schemes (padded,
 //!       class, `?`, unpadded digits `2` < `10`?, mixed case), include chains of depth 1..40 under 4 link styles; own ledger
 //!       of n+1 entries in which entry i only balances after exactly entries 0..i-1
+//!   E   fake+real FS: refused ledgers (syntax fault, false assertion, unbalanced transaction; one fault or two of
+//!       different kinds in both orders at every position): delivered prefix and winning fault must equal the unsplit ledger's
 //!   N   fake FS: an include that matches nothing (every 1-line tree x style; nested 2-line shapes x uniform style)
 //!   C   fake FS: recursive include (chain depth k, back edge to ancestor j, chain style, back-edge spelling)
 //!   X   fake FS: the same file included twice through two different spellings (sequence is DON'T-CARE)
@@ -51,7 +53,7 @@ pub const DEF: CheckDef = CheckDef {
     id: "C11",
     run,
     technique: "bounded-exhaustive enumeration of include trees: one order-sensitive 6-entry ledger cut at every subset of its 5 entry boundaries and hung into every include tree (own entries may surround include lines; one include line may glob several sibling files) within depth/line bounds x every assignment of 10 path styles to the include lines, plus 12 further styles for the remaining glob metacharacters ([0-9], [ab], [!x], ? in the same and in a sub-directory) and for file-name value classes (letter case, upper-case names, dotted names); the real Loader (FakeFileSystem and real file system) and the real report/CLI code run on every tree and are compared with the unsplit ledger",
-    rule: "case = (tree shape, path style per include line[, file system, creation order, root spelling]). quick: depth <= 2 and <= 2 include lines x all style assignments, plus all 48 097 shapes of depth <= 2 x 4 uniform style families; thorough: depth <= 3 and <= 3 lines x all style assignments, plus all 383 084 shapes of depth <= 3 x 10 uniform style families. Styles: same dir, sub-dir, ../, ./x/../y, absolute, glob prefix*, glob *suffix, glob sub/*.ledger, glob ../*suffix, glob over several directories */m.dat; family G adds rN_[0-9].dat, sN_[ab..].dat, [!x]_nN.dat, ?_qN.dat (same dir and mN/ sub-dir, the first three without any * or ?) with siblings the class must not match: quick every 1-line tree x 8 and every 2-line shape x 8 uniform, thorough every <=2-line shape x every assignment over all 18 styles using one of them; a dot-file (dot-directory) holding an unbalanced transaction sits next to every glob; FakeFileSystem returns glob matches reverse-sorted; on the real FS files are created in two scrambled orders. family T: every twin shape (root -> 2 or 3 year files d1/year.dat.. by literal lines or one glob d*/year.dat, each with own entries around ONE include line over leaf files) x 9 include texts that are IDENTICAL in every directory (part.dat, ./part.dat, ./x/../part.dat, sub/part.dat, *_p.dat, p_[0-9].dat, ?_q.dat, sub/*.ledger, sub/p_[0-9].dat), 3 538 shapes / 23 954 trees on the fake FS, 1 720 (thorough 23 954) on the real FS, plus chains whose every line says the same sub-directory text. family W: every 1-line tree x 3 styles x 125 textual forms and every 2-line shape x 17 forms ({blank, blanks, tab before the path} x {LF, CRLF on include lines, CRLF everywhere} x {blank line after every item, none} x {file end as generated, one line end, last line unterminated}; blanks after the path are DON'T-CARE), 76 059 trees on the fake FS and 1 080 on the real FS. family K (scale): one wildcard matching 1/2/5/31/32/33/64/200 files x 5 naming schemes (zero-padded by *, by [0-9][0-9][0-9], by ???; unpadded digits; alternating upper/lower-case names — byte-wise order expected, numeric-aware or case-insensitive collation DON'T-CARE) and include chains of every depth 1..40 x 4 link styles, on both file systems, over a ledger whose i-th entry only balances after exactly its predecessors; styles for letter case (v-*.dat next to V-0.dat, U_*.DAT next to u_a.dat, literal y.dat next to Y.dat) and names full of dots join the glob-metacharacter family. Further families: include matching nothing (must fail), recursive include (must fail, not crash), identical include twice and diamond (must not be reported as recursive), two spellings of one file (DON'T-CARE). states = trees executed, transitions = loader/report/CLI runs compared with the unsplit ledger",
+    rule: "case = (tree shape, path style per include line[, file system, creation order, root spelling]). quick: depth <= 2 and <= 2 include lines x all style assignments, plus all 48 097 shapes of depth <= 2 x 4 uniform style families; thorough: depth <= 3 and <= 3 lines x all style assignments, plus all 383 084 shapes of depth <= 3 x 10 uniform style families. Styles: same dir, sub-dir, ../, ./x/../y, absolute, glob prefix*, glob *suffix, glob sub/*.ledger, glob ../*suffix, glob over several directories */m.dat; family G adds rN_[0-9].dat, sN_[ab..].dat, [!x]_nN.dat, ?_qN.dat (same dir and mN/ sub-dir, the first three without any * or ?) with siblings the class must not match: quick every 1-line tree x 8 and every 2-line shape x 8 uniform, thorough every <=2-line shape x every assignment over all 18 styles using one of them; a dot-file (dot-directory) holding an unbalanced transaction sits next to every glob; FakeFileSystem returns glob matches reverse-sorted; on the real FS files are created in two scrambled orders. family T: every twin shape (root -> 2 or 3 year files d1/year.dat.. by literal lines or one glob d*/year.dat, each with own entries around ONE include line over leaf files) x 9 include texts that are IDENTICAL in every directory (part.dat, ./part.dat, ./x/../part.dat, sub/part.dat, *_p.dat, p_[0-9].dat, ?_q.dat, sub/*.ledger, sub/p_[0-9].dat), 3 538 shapes / 23 954 trees on the fake FS, 1 720 (thorough 23 954) on the real FS, plus chains whose every line says the same sub-directory text. family W: every 1-line tree x 3 styles x 125 textual forms and every 2-line shape x 17 forms ({blank, blanks, tab before the path} x {LF, CRLF on include lines, CRLF everywhere} x {blank line after every item, none} x {file end as generated, one line end, last line unterminated}; blanks after the path are DON'T-CARE), 76 059 trees on the fake FS and 1 080 on the real FS. family K (scale): one wildcard matching 1/2/5/31/32/33/64/200 files x 5 naming schemes (zero-padded by *, by [0-9][0-9][0-9], by ???; unpadded digits; alternating upper/lower-case names — byte-wise order expected, numeric-aware or case-insensitive collation DON'T-CARE) and include chains of every depth 1..40 x 4 link styles, on both file systems, over a ledger whose i-th entry only balances after exactly its predecessors; styles for letter case (v-*.dat next to V-0.dat, U_*.DAT next to u_a.dat, literal y.dat next to Y.dat) and names full of dots join the glob-metacharacter family. family E (refused ledgers): 3 entries + one fault (garbage line / false assertion / unbalanced transaction at 4 positions) or two faults of different kinds in both orders at all positions (72 ledgers) x every shape with <= 2 include lines: entries delivered before the failure, the way Loader::load ends and the error family+variant of report::process must equal those of the unsplit ledger run through the same code (42 072 trees fake, 1 020 real incl. CLI stdout + top-level message). Further families: include matching nothing (must fail), recursive include (must fail, not crash), identical include twice and diamond (must not be reported as recursive), two spellings of one file (DON'T-CARE). states = trees executed, transitions = loader/report/CLI runs compared with the unsplit ledger",
     assumptions: &[
         "entry identity = PartialEq of syntax::plain::LedgerEntry against the parsed unsplit ledger; report identity = bytes of the balance/register lines (same formatting code as cli BalanceCmd/RegisterCmd on FakeFileSystem, the real CLI in-process on the real file system)",
         "file names inside one glob are single-digit keys, so every reasonable notion of 'sorted path order' agrees; component-wise vs byte-wise order of multi-directory matches, case folding, symlinks and non-UTF-8 names are not exercised",
@@ -294,8 +296,13 @@ fn cut_mask(s: &str) -> u32 {
 
 /// all shapes with depth <= d and <= l lines, simplest first
 fn shapes(d: usize, l: usize) -> Vec<(String, usize)> {
+    shapes_n(N, d, l)
+}
+
+/// the same for a ledger of n entries
+fn shapes_n(n: usize, d: usize, l: usize) -> Vec<(String, usize)> {
     let mut g = Gen { seq: HashMap::new(), grp: HashMap::new() };
-    let mut v: Vec<(String, usize)> = g.seq(N, d, l).iter().cloned().collect();
+    let mut v: Vec<(String, usize)> = g.seq(n, d, l).iter().cloned().collect();
     v.sort_by(|a, b| (a.1, shape_depth(&a.0), a.0.len(), &a.0).cmp(&(b.1, shape_depth(&b.0), b.0.len(), &b.0)));
     v
 }
@@ -393,8 +400,7 @@ struct Fmt {
 const FMT_DEFAULT: Fmt = Fmt { sep: " ", trail: "", eol: 0, gap: true, eof: 0 };
 
 impl Fmt {
-    fn entry(&self, i: usize) -> &'static str {
-        let e = ENTRIES[i];
+    fn entry<'t>(&self, e: &'t str) -> &'t str {
         if self.gap {
             e
         } else {
@@ -430,6 +436,8 @@ impl Fmt {
 }
 
 struct Builder<'a> {
+    /// entry texts of another ledger than ENTRIES (family E)
+    texts: Option<&'a [String]>,
     fmt: Fmt,
     base: &'a str,
     styles: &'a [Style],
@@ -453,7 +461,7 @@ impl<'a> Builder<'a> {
         for it in &node.items {
             match it {
                 Item::E(i) => {
-                    content.push_str(self.fmt.entry(*i));
+                    content.push_str(self.fmt.entry(match self.texts { Some(t) => t[*i].as_str(), None => ENTRIES[*i] }));
                     if !self.dead {
                         self.l.expect.push((fidx, *i));
                     }
@@ -624,10 +632,15 @@ fn layout(shape: &str, styles: &[Style], base: &str, nomatch: Option<usize>) -> 
 }
 
 fn layout_fmt(shape: &str, styles: &[Style], base: &str, nomatch: Option<usize>, fmt: Fmt) -> Laid {
+    layout_texts(shape, styles, base, nomatch, fmt, None)
+}
+
+fn layout_texts(shape: &str, styles: &[Style], base: &str, nomatch: Option<usize>, fmt: Fmt, texts: Option<&[String]>) -> Laid {
     let node = parse_shape(shape);
     let rd = root_dir(base);
     let root = format!("{}/main.ledger", rd);
     let mut b = Builder {
+        texts,
         fmt,
         base,
         styles,
@@ -1359,6 +1372,154 @@ fn judge_repeat(fs: &str, l: &Laid, twice: &[(usize, u8)], once: &[(usize, u8)],
 }
 
 // ------------------------------------------------------------------------------------------
+// Family E: faulty ledgers — the outcome of a refused ledger must not depend on where the file boundaries are
+
+#[derive(Clone, Copy, Debug, PartialEq, Eq)]
+enum Fault {
+    /// a line that is no ledger syntax (LoadError::Parse)
+    Garbage,
+    /// a transaction with a false balance assertion (BookKeepError::BalanceAssertionFailure)
+    BadAssert,
+    /// an unbalanced transaction (BookKeepError::UnbalancedPostings)
+    Unbalanced,
+}
+const FAULTS: [Fault; 3] = [Fault::Garbage, Fault::BadAssert, Fault::Unbalanced];
+
+impl Fault {
+    fn text(self) -> &'static str {
+        match self {
+            Fault::Garbage => "!!! this line is not ledger syntax\n\n",
+            Fault::BadAssert => "2024/01/05 false assertion\n    Assets:Bank          0 CHF = 999 CHF\n    Equity:Opening       0 CHF\n\n",
+            Fault::Unbalanced => "2024/01/06 unbalanced\n    Assets:Bank          1 CHF\n    Equity:Opening       1 CHF\n\n",
+        }
+    }
+}
+
+/// the first three entries of the ledger with one or two faults inserted: (description, entry texts)
+fn faulty_ledgers() -> Vec<(String, Vec<String>)> {
+    let base: Vec<String> = ENTRIES[..3].iter().map(|s| s.to_string()).collect();
+    let mut out = vec![];
+    let ins = |v: &Vec<String>, pos: usize, f: Fault| {
+        let mut w = v.clone();
+        w.insert(pos, f.text().to_string());
+        w
+    };
+    for f in FAULTS {
+        for p in 0..=3 {
+            out.push((format!("{:?}@{}", f, p), ins(&base, p, f)));
+        }
+    }
+    for f1 in FAULTS {
+        for f2 in FAULTS {
+            if f1 == f2 {
+                continue;
+            }
+            // f1 stands before f2; p <= q are positions in the base ledger
+            for p in 0..=3 {
+                for q in p..=3 {
+                    let w = ins(&base, q, f2);
+                    out.push((format!("{:?}@{} then {:?}@{}", f1, p, f2, q), ins(&w, p, f1)));
+                }
+            }
+        }
+    }
+    out
+}
+
+/// What one run shows of a refused ledger, free of file names: the entries delivered to a plain callback and how
+/// that load ended, and how report::process ended (error family + variant).
+#[derive(Debug, PartialEq, Eq, Clone)]
+struct Refusal {
+    delivered: Vec<usize>,
+    load_end: String,
+    process_end: String,
+}
+
+fn observe_refusal<F: load::FileSystem>(known: &[syntax::plain::LedgerEntry<'static>], hid: &syntax::plain::LedgerEntry<'static>, loader: &load::Loader<F>) -> Refusal {
+    let (seen, res) = collect_k(known, hid, loader);
+    let load_end = match &res {
+        Ok(()) => "ok".to_string(),
+        Err(e) => load_err_variant(e),
+    };
+    let arena = bumpalo::Bump::new();
+    let mut ctx = report::ReportContext::new(&arena);
+    let process_end = match report::process(&mut ctx, loader, &report::ProcessOptions { price_db_path: None }) {
+        Ok(_) => "ok".to_string(),
+        Err(e) => {
+            let v = oka::err_view(&e);
+            format!("{}:{}", v.kind, v.variant)
+        }
+    };
+    Refusal { delivered: seen.iter().map(|e| e.1).collect(), load_end, process_end }
+}
+
+/// the parts of a CLI observation that do not mention file names: exit, stdout, top-level message
+fn cli_refusal(o: &str) -> String {
+    match o.split_once("--stderr--\n") {
+        None => o.to_string(),
+        Some((head, err)) => format!("{}--stderr--\n{}\n", head, err.lines().next().unwrap_or("")),
+    }
+}
+
+fn parse_entries_lossy(texts: &[String]) -> Vec<syntax::plain::LedgerEntry<'static>> {
+    // every text that is an entry on its own (the garbage line is none)
+    let mut v = vec![];
+    for t in texts {
+        let leaked: &'static str = Box::leak(t.clone().into_boxed_str());
+        let r: Result<Vec<_>, _> = parse::parse_ledger::<syntax::plain::Ident>(&parse::ParseOptions::default(), leaked).map(|r| r.map(|(_c, e)| e)).collect();
+        if let Ok(mut es) = r {
+            if es.len() == 1 {
+                v.push(es.remove(0));
+            }
+        }
+    }
+    v
+}
+
+fn judge_fault(fs: &str, l: &Laid, texts: &[String], b: &Baseline, env: Option<&RealEnv>) -> Outcome {
+    let known = parse_entries_lossy(texts);
+    let hid = &b.known.entries[HID as usize];
+    let unsplit: String = texts.concat();
+    let (reference, got) = match env {
+        None => {
+            let uf = [("/v/c11/main.ledger", unsplit.as_str())];
+            (observe_refusal(&known, hid, &oka::fake_loader(&uf, "/v/c11/main.ledger")), observe_refusal(&known, hid, &oka::fake_loader(&fake_files(l), &l.root)))
+        }
+        Some(env) => {
+            let up = format!("{}/unsplit-e/main.ledger", env.scratch);
+            std::fs::create_dir_all(parent_dir(&up)).expect("mkdir");
+            std::fs::write(&up, &unsplit).expect("write");
+            (
+                observe_refusal(&known, hid, &load::new_loader(PathBuf::from(&up)).with_error_renderer(annotate_snippets::Renderer::plain())),
+                observe_refusal(&known, hid, &load::new_loader(PathBuf::from(&l.root)).with_error_renderer(annotate_snippets::Renderer::plain())),
+            )
+        }
+    };
+    if reference.process_end == "ok" {
+        panic!("harness bug: a faulty ledger is accepted: {:?}", reference);
+    }
+    let show = || format!("--- unsplit ---\n{:?}\n--- split ---\n{:?}", reference, got);
+    if got.process_end != reference.process_end {
+        return Outcome::violation(format!("refused-ledger/{}/another-fault-wins/unsplit-{}/split-{}", fs, reference.process_end, got.process_end), show());
+    }
+    if got.delivered != reference.delivered || got.load_end != reference.load_end {
+        let kind = if got.delivered.len() < reference.delivered.len() { "split-delivers-less" } else if got.delivered.len() > reference.delivered.len() { "split-delivers-more" } else { "differs" };
+        return Outcome::violation(format!("refused-ledger/{}/delivered-before-the-failure/{}", fs, kind), show());
+    }
+    if let Some(env) = env {
+        let up = format!("{}/unsplit-e/main.ledger", env.scratch);
+        let base = cli_outputs(&up);
+        let outs = cli_outputs(&l.root);
+        for (i, o) in outs.iter().enumerate() {
+            if cli_refusal(o) != cli_refusal(&base[i]) {
+                return Outcome::violation(format!("refused-ledger/{}/cli-{}-differs", fs, CLI_CMDS[i]), format!("--- unsplit ---\n{}--- split ---\n{}", base[i], o));
+            }
+        }
+    }
+    Outcome::pass(format!("refused-ledger/{}/same/{}/after-{}-entries", fs, reference.process_end, reference.delivered.len()))
+}
+
+// ------------------------------------------------------------------------------------------
 // Family K: scale — one wildcard matching many files, long include chains, names whose order needs care
 
 /// Ledger of n+1 entries in which entry i (i >= 1) only balances when exactly the entries 0..i-1 were booked before it:
@@ -1530,7 +1691,7 @@ fn scale_bucket(n: usize) -> &'static str {
 }
 
 /// `what` = "one-glob" | "chain"; `n` = number of files matched / chain depth
-fn judge_k(fs: &str, what: &str, n: usize, k: &KCase, b: &Baseline, env: Option<&RealEnv>) -> Outcome {
+fn judge_k(fs: &str, what: &str, n: usize, k: &KCase, b: &Baseline, env: Option<&RealEnv>, insertion: usize) -> Outcome {
     let unsplit: String = k.texts.concat();
     let known = parse_static(unsplit.clone());
     assert!(known.len() == k.texts.len(), "harness bug: scale ledger does not parse as its entries");
@@ -1538,7 +1699,18 @@ fn judge_k(fs: &str, what: &str, n: usize, k: &KCase, b: &Baseline, env: Option<
     let tag = format!("{}/{}-{}", fs, what, scale_bucket(n));
     let (seen, res, norm): (Vec<(PathBuf, usize)>, Result<(), load::LoadError>, Box<dyn Fn(&Path) -> String>) = match env {
         None => {
-            let (s, r) = collect_k(&known, hid, &oka::fake_loader(&fake_files(&k.l), &k.l.root));
+            // order in which the files are put into the in-memory file system: ascending, descending, scrambled
+            let mut ff = fake_files(&k.l);
+            match insertion {
+                0 => {}
+                1 => ff.reverse(),
+                _ => {
+                    let mut keyed: Vec<(usize, (&str, &str))> = ff.iter().enumerate().map(|(i, f)| ((i * 37 + 11) % 101, *f)).collect();
+                    keyed.sort_by_key(|x| x.0);
+                    ff = keyed.into_iter().map(|x| x.1).collect();
+                }
+            }
+            let (s, r) = collect_k(&known, hid, &oka::fake_loader(&ff, &k.l.root));
             (s, r, Box::new(|p: &Path| lexical_norm(p)))
         }
         Some(_) => {
@@ -1976,17 +2148,44 @@ fn run_inner(ctx: &mut Ctx) {
     ctx.fact("family_T_trees", n_t);
     fake_tally.emit(ctx, "fake");
 
-    // ---- K: scale (fake FS): one wildcard matching 1..200 files x 5 naming schemes; include chains of depth 1..40 x 4 links
-    let mut n_k = 0u64;
-    for n in WIDTHS {
-        for naming in NAMINGS {
-            n_k += 1;
+    // ---- E: refused ledgers (fake FS): 3 base entries + one fault (3 kinds x 4 positions) or two faults of different
+    //  kinds in both orders at all positions p <= q (6 x 10) = 72 ledgers of 4..5 entries; every shape with <= 2 include
+    //  lines (depth <= 2) x literal style (prefix glob for groups). Reference = the same code on the unsplit ledger.
+    let faulty = faulty_ledgers();
+    ctx.fact("family_E_faulty_ledgers", faulty.len() as u64);
+    let shapes_by_len: BTreeMap<usize, Vec<(String, usize)>> = [4usize, 5].iter().map(|n| (*n, shapes_n(*n, 2, 2).into_iter().filter(|s| s.1 >= 1).collect())).collect();
+    let mut n_e = 0u64;
+    for (what, texts) in &faulty {
+        for (shape, _) in &shapes_by_len[&texts.len()] {
+            n_e += 1;
             if !ctx.next_is_mine() {
                 ctx.skip_cases(1);
                 continue;
             }
-            let k = layout_wide(FAKE_BASE, n, naming);
-            ctx.case(|| format!("[K fake FS] one wildcard matching {} files, names {:?}\n{}", n, naming, render_short(&k.l)), || judge_k("fake", "one-glob", n, &k, &b, None));
+            let multi = line_multi(shape);
+            let st = uniform_styles(&multi, Same);
+            let l = layout_texts(shape, &st, FAKE_BASE, None, FMT_DEFAULT, Some(texts));
+            ctx.case(|| format!("[E fake FS] faults: {}; shape {} styles [{}]\n{}", what, shape, style_names(&st), render(&l)), || judge_fault("fake", &l, texts, &b, None));
+        }
+    }
+    ctx.fact("family_E_trees", n_e);
+
+    // ---- K: scale (fake FS): one wildcard matching 1..200 files x 5 naming schemes; include chains of depth 1..40 x 4 links
+    let mut n_k = 0u64;
+    for n in WIDTHS {
+        for naming in NAMINGS {
+            for insertion in 0..3usize {
+                n_k += 1;
+                if !ctx.next_is_mine() {
+                    ctx.skip_cases(1);
+                    continue;
+                }
+                let k = layout_wide(FAKE_BASE, n, naming);
+                ctx.case(
+                    || format!("[K fake FS, files inserted {}] one wildcard matching {} files, names {:?}\n{}", ["ascending", "descending", "scrambled"][insertion], n, naming, render_short(&k.l)),
+                    || judge_k("fake", "one-glob", n, &k, &b, None, insertion),
+                );
+            }
         }
     }
     for d in 1..=MAX_CHAIN {
@@ -1997,7 +2196,7 @@ fn run_inner(ctx: &mut Ctx) {
                 continue;
             }
             let k = layout_deep(FAKE_BASE, d, link);
-            ctx.case(|| format!("[K fake FS] include chain of depth {}, links {:?}\n{}", d, link, render_short(&k.l)), || judge_k("fake", "chain", d, &k, &b, None));
+            ctx.case(|| format!("[K fake FS] include chain of depth {}, links {:?}\n{}", d, link, render_short(&k.l)), || judge_k("fake", "chain", d, &k, &b, None, 0));
         }
     }
     ctx.fact("family_K_cases", n_k);
@@ -2234,6 +2433,31 @@ fn run_inner(ctx: &mut Ctx) {
         }
     }
     let _ = (grp3, grp3_scrambled);
+    // RE: refused ledgers on the real FS (loader, report::process, CLI): every 1-line shape whose line has one child
+    let mut n_re = 0u64;
+    for (what, texts) in &faulty {
+        for (shape, lines) in &shapes_by_len[&texts.len()] {
+            let multi = line_multi(shape);
+            if *lines != 1 || multi[0] {
+                continue;
+            }
+            n_re += 1;
+            if !ctx.next_is_mine() {
+                ctx.skip_cases(1);
+                continue;
+            }
+            let st = vec![Same];
+            let l = layout_texts(shape, &st, &real_base, None, FMT_DEFAULT, Some(texts));
+            ctx.case(
+                || format!("[RE real FS] faults: {}; shape {} styles [Same]\n{}", what, shape, render(&l)).replace(&env.scratch, "<scratch>"),
+                || {
+                    materialise(&l, &real_base, 0);
+                    judge_fault("real", &l, texts, &b, Some(&env))
+                },
+            );
+        }
+    }
+    ctx.fact("family_RE_cases", n_re);
     // RK: scale on the real FS (loader + CLI)
     let mut n_rk = 0u64;
     for n in WIDTHS {
@@ -2249,7 +2473,7 @@ fn run_inner(ctx: &mut Ctx) {
                     || format!("[RK real FS, creation order {}] one wildcard matching {} files, names {:?}\n{}", order, n, naming, render_short(&k.l)).replace(&env.scratch, "<scratch>"),
                     || {
                         materialise(&k.l, &real_base, order);
-                        judge_k("real", "one-glob", n, &k, &b, Some(&env))
+                        judge_k("real", "one-glob", n, &k, &b, Some(&env), 0)
                     },
                 );
             }
@@ -2267,7 +2491,7 @@ fn run_inner(ctx: &mut Ctx) {
                 || format!("[RK real FS] include chain of depth {}, links {:?}\n{}", d, link, render_short(&k.l)).replace(&env.scratch, "<scratch>"),
                 || {
                     materialise(&k.l, &real_base, 0);
-                    judge_k("real", "chain", d, &k, &b, Some(&env))
+                    judge_k("real", "chain", d, &k, &b, Some(&env), 0)
                 },
             );
         }
